@@ -21,7 +21,7 @@ for name in sorted(os.listdir(os.path.join(V, "seeded")), key=lambda s: (s.split
     m = json.load(open(mp))
     ver = open(os.path.join(d, "verified.txt")).readline().strip() if os.path.exists(os.path.join(d, "verified.txt")) else ""
     verf = open(os.path.join(d, "verified_fixed.txt")).readline().strip() if os.path.exists(os.path.join(d, "verified_fixed.txt")) else ""
-    rnd = 2 if int(name.split("-")[1]) >= 4 or name.startswith(("C07-", "C06-")) else 1
+    rnd = 2 if int(name.split("-")[1]) >= 4 or name.startswith(("C07-", "C06-", "C02-")) else 1
     m["round"] = rnd
     m["made_on"] = "tree with the fix: commits (HEAD at the time)" if rnd == 2 else "pinned commit 6219822"
     m["what_i_ran"] = {
